@@ -9,11 +9,13 @@ PROP = dict(
              timeout=dict(quick=600, thorough=3000), workers=4),
         dict(module="MCClientTracingConc", cfg=dict(quick="MCClientTracingConc_quick.cfg", thorough="MCClientTracingConc_thorough.cfg"),
              timeout=dict(quick=600, thorough=3000), workers=4),
+        dict(module="MCClientTracingConc", cfg="MCClientTracingConc_thorough2.cfg", timeout=3000, workers=4, tiers=["thorough"]),  # 2 callers x 2 Submits each
         # as-built / mutated variants of the model: each must reproduce its counterexample (non-vacuity)
         dict(module="MCClientTracing", cfg="MCClientTracing_asbuilt_D50.cfg", expect_violation="InvOpClean", timeout=300, workers=1),        # D50: op.Params/op.Reader left replaced
         dict(module="MCClientTracing", cfg="MCClientTracing_asbuilt_D50_leak.cfg", expect_violation="InvFinished", timeout=300, workers=1),  # D50: ... hence a leaked span on reuse
         dict(module="MCClientTracing", cfg="MCClientTracing_asbuilt_D51.cfg", expect_violation="InvError", timeout=300, workers=1),          # D51: ServerStatus on a client span
         dict(module="MCClientTracingConc", cfg="MCClientTracingConc_asbuilt_D52.cfg", expect_violation="InvNoRace", timeout=300, workers=1), # D52: append into the shared options
+        dict(module="MCClientTracingConc", cfg="MCClientTracingConc_asbuilt_D52_parent.cfg", expect_violation="InvProp", timeout=300, workers=1),  # D52: ... hence a span under another caller's span
         dict(module="MCClientTracingConc", cfg="MCClientTracingConc_mutant_sharedvar.cfg", expect_violation="InvIsolation", timeout=300, workers=1),  # span kept in a transport field
     ],
     gen=dict(module="GenClientTracing", cfg=dict(quick="GenClientTracing_quick.cfg", thorough="GenClientTracing_thorough.cfg"), timeout=900),
@@ -25,14 +27,15 @@ PROP = dict(
                "transport. The statement is a declarative predicate Prop over the observation of one call (spans started by it, their "
                "parent, tags, status, error flag, finish count, use after finish, injected ids, invocations of the caller's writer and "
                "reader, returned error, operation value unchanged). TLC checks model |= Prop at every return for all scripts and all "
-               "interleavings, span-store sanity at every state, termination under weak fairness, and that the as-built variants "
+               "interleavings, span-store sanity at every state, termination under weak fairness (quick configurations), and that the as-built variants "
                "(D50 operation left modified / leaked span on reuse, D51 ServerStatus, D52 shared option slice) and the shared-span-"
                "variable mutant violate. GenClientTracing exports every termination script and every gate interleaving; the driver "
                "replays them on real client.Runtime + WithOpenTracing/WithOpenTelemetry with recording decorators around mocktracer and "
                "the OpenTelemetry SDK (in-memory span recorder), each call also without tracing; TLC validates every span event as it "
                "happens and, at return, Prop on the observed call, agreement with the model's observation for the script, and equality "
                "of the caller-visible behaviour with the untraced run. The binary runs under the race detector (one more event).",
-    level_note="bounded exhaustive at model level (2 Submits of one operation value quick / 3 thorough; 2 callers quick / 3 thorough); "
+    level_note="bounded exhaustive at model level (2 Submits of one operation value x 12 statuses quick / 3 Submits x 8 statuses thorough; "
+               "2 callers quick / 3 callers and 2 callers x 2 Submits thorough); "
                "real code bound by replay of every exported script + seeded random scripts and trace validation of all recorded events; "
                "interleavings inside a stage are reached only by the free-running/-race runs",
     design_ref="DESIGN.md 6 (item 3); notes/G01.md",
